@@ -59,8 +59,11 @@ class EscPE(pe.PE):
         return g.internal and g.name not in ()
 
     def init_mem(self, state, base, path, t):
-        if base == "str" and path == ():
-            return pe.C(self.byte if self.byte < 128 else self.byte - 256)
+        if base == "str":
+            data = self.byte if isinstance(self.byte, (bytes, bytearray)) else bytes([self.byte])
+            el, fl = pe.fields_of(path)
+            if not fl and isinstance(el, int) and 0 <= el < len(data):
+                return pe.C(data[el] if data[el] < 128 else data[el] - 256)
         if base == "@json_hex_chars" and path == ():
             for m in self.prog.modules:
                 g = m.globals.get("json_hex_chars")
@@ -96,8 +99,10 @@ def _lit(P, v):
 
 def _escape_output(prog, f, byte, flags):
     """list of possible outputs (bytes) of json_escape_str for the one-byte string [byte]"""
+    data = byte if isinstance(byte, (bytes, bytearray)) else bytes([byte])
     P = EscPE(prog, byte, flags)
-    leaves = P.run(f, [("ptr", "pb", ()), ("ptr", "str", ()), pe.C(1), pe.C(flags)], pe.State())
+    P.loop_widen = 1000
+    leaves = P.run(f, [("ptr", "pb", ()), ("ptr", "str", ()), pe.C(len(data)), pe.C(flags)], pe.State())
     outs = set()
     for l in leaves:
         if l.kind != "ret":
@@ -123,9 +128,11 @@ def _escape_output(prog, f, byte, flags):
                     continue
                 n = ln[1]
                 if src[0] == "ptr" and src[1] == "str":
-                    if n != 1:
+                    el, fl = pe.fields_of(src[2])
+                    if fl or not isinstance(el, int) or el < 0 or el + n > len(data):
                         ok = False
-                    out += bytes([byte])
+                    else:
+                        out += data[el:el + n]
                 elif src[0] == "ptr" and src[1].startswith("@"):
                     lit = _lit(P, src)
                     if lit is None:
@@ -186,6 +193,46 @@ def r1(chk, prog, m):
             else:
                 chk.proven(rid, f.name, sig, f.entry.term.locstr(), "%d byte values as required" % len(members))
     chk.floor(rid, n, 512, "escape table rows")
+    # the writer is a byte-wise homomorphism: a two-byte string gives the concatenation of the two single-byte outputs, whatever the
+    # first byte's branch did to the scan position (every first-byte class x every second byte, plus class x class for three bytes)
+    rid2 = "C02.R1b"
+    chk.rule(rid2, "string escaping is byte-wise: for every class of first byte (each escape branch, slash, ordinary, NUL, high bit) and "
+                   "every second byte, and NOSLASHESCAPE on and off, the output for the two-byte string is the concatenation of the "
+                   "outputs for its bytes (no branch skips, repeats or re-reads the byte that follows)")
+    single = {}
+    for flags in (0, F_NOSLASH):
+        for b in range(256):
+            o = _escape_output(prog, f, b, flags)
+            single[(b, flags)] = next(iter(o)) if len(o) == 1 and None not in o else None
+    reps = [0x22, 0x5C, 0x2F, 0x08, 0x0A, 0x01, 0x1F, 0x00, 0x61, 0x7F, 0x80, 0xFF]
+    n2 = 0
+    bad2 = None
+    for flags in (0, F_NOSLASH):
+        for a in reps:
+            for b in range(256):
+                n2 += 1
+                want = None if single[(a, flags)] is None or single[(b, flags)] is None else single[(a, flags)] + single[(b, flags)]
+                got = _escape_output(prog, f, bytes([a, b]), flags)
+                if want is not None and got != {want} and bad2 is None:
+                    bad2 = (bytes([a, b]), flags, got, want)
+        for a in reps:
+            for b in reps:
+                for c in (0x22, 0x61):
+                    n2 += 1
+                    parts = [single[(x, flags)] for x in (a, b, c)]
+                    if any(p is None for p in parts):
+                        continue
+                    got = _escape_output(prog, f, bytes([a, b, c]), flags)
+                    if got != {b"".join(parts)} and bad2 is None:
+                        bad2 = (bytes([a, b, c]), flags, got, b"".join(parts))
+    if bad2:
+        data, flags, got, want = bad2
+        chk.refuted(rid2, f.name, "byte-wise escaping", f.entry.term.locstr(),
+                    "the string %r under flags %d is written as %s, not as the concatenation %r of its bytes' escapes"
+                    % (data, flags, sorted(repr(g) for g in got), want), {"string": repr(data), "flags": flags})
+    else:
+        chk.proven(rid2, f.name, "byte-wise escaping", f.entry.term.locstr(), "%d strings of two and three bytes" % n2)
+    chk.floor(rid2, n2, 6000, "multi-byte strings evaluated")
 
 
 # ---------------------------------------------------------------------------------------------------------------------
